@@ -503,6 +503,8 @@ func init() {
 		}
 		if replay == "" {
 			c08HeaderSpellings(meta)
+
+			c08FormResponses(meta)
 		}
 		meta.NCases = len(cases)
 		meta.Files = writeCases(outDir, "From KV Require Import Model.Base Model.Json Model.Schema Model.Lookup Model.Response Exec.C08Exec.", "c08case", "judge", terms, meta.Shard)
